@@ -83,8 +83,8 @@ def mc_u1(pid, tier):
 
 # property -> list of (family, share of the walk budget)
 FAMILIES = {
-    "C04": [("mixed", 0.5), ("session", 0.3), ("enum:handshake", 0), ("enum:refused", 0), ("react", 0.3), ("enum:react", 0)], "C05": [("mixed", 0.6), ("retry", 0.4), ("react", 0.3), ("enum:react", 0)], "C06": [("inbound", 0.6), ("mixed", 0.3), ("session", 0.2)],
-    "C07": [("subs", 0.6), ("mixed", 0.4), ("react", 0.3), ("enum:react", 0)], "C08": [("retry", 0.5), ("mixed", 0.3), ("jitter", 0.3)], "C09": [("qos2", 0.5), ("wrapq2", 0.4), ("mixed", 0.2), ("session", 0.2)],
+    "C04": [("mixed", 0.5), ("session", 0.3), ("enum:handshake", 0), ("enum:refused", 0), ("react", 0.3), ("enum:react", 0)], "C05": [("mixed", 0.6), ("retry", 0.4), ("react", 0.3), ("enum:react", 0)], "C06": [("inbound", 0.6), ("mixed", 0.3), ("session", 0.2), ("enum:inbound2", 0)],
+    "C07": [("subs", 0.6), ("mixed", 0.4), ("react", 0.3), ("enum:react", 0)], "C08": [("retry", 0.5), ("mixed", 0.3), ("jitter", 0.3), ("enum:retrygrid", 0)], "C09": [("qos2", 0.5), ("wrapq2", 0.4), ("mixed", 0.2), ("session", 0.2)],
     "C10": [("mixed", 0.5), ("persist", 0.4), ("session", 0.3), ("react", 0.3), ("enum:react", 0)], "C11": [("session", 0.7), ("mixed", 0.3), ("enum:refused", 0), ("react", 0.3), ("enum:react", 0)], "C12": [("persist", 0.4), ("wrapsess", 0.3), ("session", 0.3), ("mixed", 0.2), ("enum:refused", 0)],
     "C13": [("mixed", 0.3), ("session", 0.3), ("retry", 0.2), ("keepalive", 0.2), ("jitter", 0.2), ("enum:refused", 0), ("react", 0.3), ("enum:react", 0)], "C14": [("mixed", 0.7), ("session", 0.3), ("enum:handshake", 0), ("enum:refstate", 0), ("react", 0.3), ("enum:react", 0)],
     "C15": [("keepalive", 0.7), ("mixed", 0.3)], "C16": [("enum:inject", 0), ("enum:handshake", 0), ("mixed", 0.4), ("session", 0.3), ("react", 0.3), ("enum:react", 0)], "C17": [("wrap", 0.5), ("wrapsess", 0.4), ("mixed", 0.2), ("enum:ids", 0), ("react", 0.3), ("enum:react", 0)],
@@ -170,6 +170,7 @@ def combine(w, dirs, profs=("pub", "sub", "both")):
     return allp, os.path.join(w, "all.idx.json"), idx, src
 
 
+BATCH_BYTES = int(os.environ.get("VERIF_BATCH_BYTES", "14000000"))     # (a 50 MB file of long-string arguments filled an 8 GB heap)
 BATCH_LINES = int(os.environ.get("VERIF_BATCH_LINES", "60000"))       # TLC holds the whole JSON file in memory and parses it single-threaded: large runs are judged in batches
 
 
@@ -177,24 +178,29 @@ def batches(trace, index, w, tag):
     """splits trace/index into self-contained batches (a trace and the reference/twin trace its meta.ref names stay together);
     yields (trace path, index path, number of the first trace - 1, number of traces)"""
     idx = json.load(open(index))
-    if not idx or idx[-1][1] <= BATCH_LINES:
+    if not idx or (idx[-1][1] <= BATCH_LINES and os.path.getsize(trace) <= BATCH_BYTES):
         return [(trace, index, 0, len(idx))]
     # ref of every trace (constant inside a trace; read from its first line)
     refs = [0] * (len(idx) + 1)
     starts = {a: k + 1 for k, (a, b) in enumerate(idx)}
+    endbyte = {}; pos = 0; ends = {b: k + 1 for k, (a, b) in enumerate(idx)}       # bytes up to the end of every trace
     with open(trace) as f:
         for i, line in enumerate(f, 1):
             k = starts.get(i)
-            if k and '"ref":' in line and '"ref":0' not in line:
+            probe = line if len(line) < 20000 else line[:2000] + line[-2000:]      # (meta sits at an end of the line)
+            if k and '"ref":' in probe and '"ref":0' not in probe:
                 refs[k] = json.loads(line).get("meta", {}).get("ref", 0) or 0
+            pos += len(line)
+            if i in ends:
+                endbyte[ends[i]] = pos
     # a cut before trace k is allowed iff no trace >= k refers to a trace < k
     minref = [len(idx) + 1] * (len(idx) + 2)
     for k in range(len(idx), 0, -1):
         minref[k] = min(minref[k + 1], refs[k] if refs[k] else len(idx) + 1)
-    cuts = [1]; lines0 = idx[0][0]
+    cuts = [1]; lines0 = idx[0][0]; bytes0 = 0
     for k in range(2, len(idx) + 1):
-        if idx[k - 1][1] - lines0 + 1 > BATCH_LINES and minref[k] >= k and k > cuts[-1]:
-            cuts.append(k); lines0 = idx[k - 1][0]
+        if (idx[k - 1][1] - lines0 + 1 > BATCH_LINES or endbyte[k] - bytes0 > BATCH_BYTES) and minref[k] >= k and k > cuts[-1]:
+            cuts.append(k); lines0 = idx[k - 1][0]; bytes0 = endbyte[k - 1]
     cuts.append(len(idx) + 1)
     out = []
     with open(trace) as f:
